@@ -250,6 +250,12 @@ class MachineVariables(LogMixin):
         except KeyError:
             pass
         else:
+            # the variable reads as None from now on. tell everybody who is waiting for changes
+            if prev_value['value'] is not None:
+                self.machine.events.post('machine_var_' + name,
+                                         value=None,
+                                         prev_value=prev_value['value'],
+                                         change=True)
             if self.machine_var_monitor:
                 for callback in self.machine.monitors['machine_vars']:
                     callback(name=name, value=None,
@@ -268,6 +274,12 @@ class MachineVariables(LogMixin):
         """
         for var in list(self.machine_vars.keys()):
             if var.startswith(startswith) and var.endswith(endswith):
+                prev_value = self.machine_vars[var]['value']
                 del self.machine_vars[var]
+                if prev_value is not None:
+                    self.machine.events.post('machine_var_' + var,
+                                             value=None,
+                                             prev_value=prev_value,
+                                             change=True)
 
         self._write_machine_vars_to_disk()
